@@ -55,7 +55,19 @@ func genPayload(r *rand.Rand, risky bool) (payload string, want string, hasErr b
 		hasErr = true
 		tag := pick(r, "rpc-error", "rpc-error", "nc:rpc-error")
 		sev := pick(r, "error", "warning")
-		fmt.Fprintf(&body, "<%s><error-type>application</error-type><error-tag>invalid-value</error-tag><error-severity>%s</error-severity><error-message>%s</error-message></%s>", tag, sev, word(r, lower+" ", 3, 20), tag)
+		// (the start tag may carry a namespace declaration or white space before its '>')
+		open := tag
+		switch r.IntN(5) {
+		case 0:
+			if tag == "rpc-error" {
+				open += ` xmlns="urn:ietf:params:xml:ns:netconf:base:1.0"`
+			} else {
+				open += ` xmlns:nc="urn:ietf:params:xml:ns:netconf:base:1.0"`
+			}
+		case 1:
+			open += pick(r, " ", "\n", "\n  ")
+		}
+		fmt.Fprintf(&body, "<%s><error-type>application</error-type><error-tag>invalid-value</error-tag><error-severity>%s</error-severity><error-message>%s</error-message></%s>", open, sev, word(r, lower+" ", 3, 20), tag)
 		if r.IntN(3) == 0 {
 			body.WriteString("<data/>")
 		}
